@@ -233,6 +233,7 @@ SHAPES = {
     "chain-with-a-for-index-left-operand": "led = Led(13)\ndef level(pin):\n    return analog_read(pin) / 100\nwhile True:\n    for step in range(8):\n        if step < level(0) <= 10:\n            led.toggle()\n    sleep(5)\n",
     "chain-with-a-loop-local-right-operand": "led = Led(13)\nwhile True:\n    high = 900\n    if 100 < analog_read(0) < high:\n        led.on()\n    sleep(5)\n",
     "device-declared-in-both-arms-of-an-if": "cfg = 1\nif cfg == 1:\n    dev = Led(13)\nelse:\n    dev = Led(12)\ndev.set_brightness(77)\n",
+    "string-repeated-by-a-run-time-count": "mon = SerialMonitor(9600)\nn = 0\nwhile True:\n    n = n + 1\n    bar = '#' * n\n    mon.write(bar)\n    sleep(5)\n",
     "empty-script": "",
     "only-imports-and-sleep": "while True:\n    sleep(100)\n",
     "string-functions": "mon = SerialMonitor(9600)\ndef tag(s, n):\n    return s + str(n)\nt = tag('k', 3)\nmon.write(t)\nmon.write(len(t))\n",
